@@ -648,3 +648,42 @@ Proof.
   rewrite Hr in H4. subst s2. unfold next_out in H2. rewrite Ht in H2.
   rewrite H5, H6, H2, H3. split; reflexivity.
 Qed.
+
+Lemma sync_reset_at_edge_full c rg lv s v :
+  ck_rst c = RST_SYNC -> rg_rstval rg = Some v -> lv = ck_active_high c ->
+  r_out (reg_reset_change c rg lv s) = r_out s /\
+  r_inrst (reg_reset_change c rg lv s) = true /\
+  r_out (reg_advance c rg (reg_reset_change c rg lv s)) = v.
+Proof.
+  intros Hs Hv Hl.
+  assert (Hi : r_inrst (reg_reset_change c rg lv s) = true).
+  { rewrite reg_reset_change_inrst, reg_in_reset_level, Hl, Hv, Bool.eqb_reflx. reflexivity. }
+  split; [apply sync_reset_no_immediate_change; rewrite Hs; discriminate|].
+  split; [exact Hi|]. apply sync_reset_at_edge_reg; assumption.
+Qed.
+
+Lemma reset_active_level_full c rg lv s :
+  r_inrst (reg_reset_change c rg lv s) =
+  Bool.eqb lv (ck_active_high c) && match rg_rstval rg with Some _ => true | None => false end.
+Proof. rewrite reg_reset_change_inrst. apply reg_in_reset_level. Qed.
+
+Lemma sync_sample_full cfg comb P d r s :
+  latched cfg comb d -> nth_error (d_regs d) r = Some s ->
+  exists s', nth_error (d_regs (spec_clock cfg P d)) r = Some s' /\
+    r_inrst s' = r_inrst s /\
+    r_out s' =
+      if triggered cfg P r then
+        if r_inrst s then
+          (if rstkind_eqb (ck_rst (reg_clock cfg r)) RST_SYNC
+           then match rg_rstval (get_reg cfg r) with Some v => v | None => r_out s end
+           else r_out s)
+        else match EN_pre cfg comb d r with
+             | BX => all_X (rg_width (get_reg cfg r))
+             | B1 => D_pre cfg comb d r
+             | B0 => r_out s
+             end
+      else r_out s.
+Proof.
+  intros Hl Hs. destruct (sync_sample_spec cfg comb P d r s Hl Hs) as (s' & H1 & H2 & H3).
+  exists s'. repeat split; auto.
+Qed.
